@@ -273,6 +273,14 @@ def run_live_orders(case):
                         res = market.place_order(o)
                     except Exception as e:
                         res = "EXC:" + type(e).__name__
+            elif step[0] == "replace":
+                o = names.get(step[1])
+                if o is not None and o.bet_id and o.status is not None and o.status.value == "Executable":
+                    market = fw.markets.markets.get(o.market_id)
+                    try:
+                        res = market.replace_order(o, step[2] / 100) if market is not None else None
+                    except Exception as e:
+                        res = "EXC:" + type(e).__name__
             elif step[0] == "ack":
                 o = names.get(step[1])
                 if o is not None and o.status is not None:
